@@ -13,7 +13,7 @@ import (
 //verif:case C20 thorough VerifJitterTicker 2 0 @fires=3 @arith=1 @noreplay=1
 //verif:case C20 thorough VerifJitterTicker 2 1..2 @fires=3 @arith=1 @noreplay=1
 //verif:case C20 thorough VerifJitterTicker 3 0 @fires=4 @arith=1 @noreplay=1
-//verif:case C20 quick VerifJitterArgs 0..1 @arith=1 @noreplay=1
+//verif:case C20 quick VerifJitterArgs 0..2 @arith=1 @noreplay=1
 
 // VerifSleepContext: d, the deadline and the clock are symbolic 64-bit values.
 func VerifSleepContext(kind int) {
@@ -135,6 +135,21 @@ func VerifJitterTicker(ticks int, scenario int) {
 func VerifJitterArgs(which int) {
 	d := time.Duration(vNondetInt("d"))
 	j := time.Duration(vNondetInt("jitter"))
+	if which == 2 {
+		// the full documented range, including durations near the top of int64: creating (and
+		// immediately stopping) the ticker must not panic
+		vAssume(vAnd(d > 0, vAnd(0 <= j, j < d)))
+		var t *JitterTicker
+		p := vTry(func() { t = NewJitterTicker(d, j) })
+		vAssert(!p, "ticker/no-panic-for-documented-arguments")
+		if !p {
+			p2 := vTry(func() { t.Reset(d, j) })
+			vAssert(!p2, "ticker/reset-no-panic-for-documented-arguments")
+			t.Stop()
+		}
+		vCover("ticker-args-full-range")
+		return
+	}
 	if which == 0 {
 		vAssume(d <= 0)
 	} else {
